@@ -1,5 +1,5 @@
 (* Casts (truncateIntValue) and the platform's char signedness for character tokens. *)
-From CV Require Import Base.Bytes Lit.Defs Lit.Spec Lit.Platform Lit.TokenValue Lit.Gen_Platforms Lit.CharTheorems.
+From CV Require Import Base.Bytes Lit.Defs Lit.Spec Lit.Platform Lit.TokenValue Lit.Gen_Platforms Lit.Proofs Lit.CharTheorems Lit.CharExt.
 Require Import Lia ZifyBool.
 Local Open Scope N_scope.
 
@@ -130,3 +130,53 @@ Example octal_escape_char_token_now :
   char_literal_to_ll [39; 92; 51; 55; 55; 39] = Some (-1)%Z /\
   char_token_value plat_arm32_wchar_t4 false 1 (-1) = char_value_on plat_arm32_wchar_t4 255.
 Proof. vm_compute. repeat split; reflexivity. Qed.
+
+(* the plain-char adjustment on any byte value *)
+Lemma char_token_value_byte p cpp v : v < 256 -> p_char_bit p = 8 -> (p_sign p = 115 \/ p_sign p = 117) ->
+  char_token_value p cpp 1 (sext_spec 8 v) = char_value_on p v.
+Proof.
+  intros Hv Hb Hp.
+  unfold char_token_value, char_value_on, sext_spec. rewrite Hb. change (2 ^ Z.of_N 8)%Z with 256%Z.
+  change (2 ^ 8) with 256. change (2 ^ (8 - 1)) with 128.
+  rewrite (N.mod_small v 256) by assumption. cbn [N.eqb Pos.eqb].
+  destruct Hp as [E|E]; rewrite E; cbn [N.eqb Pos.eqb andb].
+  - reflexivity.
+  - destruct (N.ltb_spec v 128) as [L|L].
+    + destruct (Z.ltb_spec (Z.of_N v) 0); [lia | reflexivity].
+    + destruct (Z.ltb_spec (Z.of_N v - Z.of_N 256) 0); lia.
+Qed.
+
+(* a one-character narrow literal written with ANY c-char of the extended grammar (source character,
+   simple, octal, hexadecimal or universal escape) that Token::isCChar counts as one character has the
+   value of the platform's plain char *)
+Theorem char_token_value_platform_ext p cpp sp v :
+  c_char_ext 39 sp v -> p_char_bit p = 8 -> (p_sign p = 115 \/ p_sign p = 117) ->
+  token_char_count (39 :: sp ++ [39]) = Some 1 ->
+  char_literal_to_ll (39 :: sp ++ [39]) = Some (sext_spec 8 v) /\
+  char_token_value p cpp 1 (sext_spec 8 v) = char_value_on p v.
+Proof.
+  intros Hc Hb Hp _.
+  assert (Hcs : c_chars_ext (sp ++ []) [v]) by (constructor; [exact Hc | constructor]).
+  rewrite app_nil_r in Hcs.
+  split; [exact (narrow_char_literal_ext sp [v] Hcs ltac:(discriminate))|].
+  apply char_token_value_byte; try assumption.
+  exact (proj1 (proj2 (c_char_ext_item _ _ _ [] Hc))).
+Qed.
+
+(* in particular every octal escape (count 1 by token_char_count_octal_escape) *)
+Corollary char_token_value_platform_octal p cpp cs ds :
+  digit_seq 8 cs ds -> (1 <= length cs <= 3)%nat -> value_of_digits 8 ds < 256 ->
+  p_char_bit p = 8 -> (p_sign p = 115 \/ p_sign p = 117) ->
+  char_literal_to_ll (39 :: (92 :: cs) ++ [39]) = Some (sext_spec 8 (value_of_digits 8 ds)) /\
+  token_char_count (39 :: 92 :: cs ++ [39]) = Some 1 /\
+  char_token_value p cpp 1 (sext_spec 8 (value_of_digits 8 ds)) = char_value_on p (value_of_digits 8 ds).
+Proof.
+  intros Hcs Hl Hv Hb Hp.
+  assert (Hoct : forallb is_octdigit cs = true).
+  { clear Hl Hv. induction Hcs; [reflexivity|]. cbn [forallb]. rewrite (proj1 (digit_char_8 _ _ H)). exact IHHcs. }
+  assert (Hc : c_char_ext 39 (92 :: cs) (value_of_digits 8 ds)).
+  { apply CE_oct; try assumption. intros _ d Hd. apply digit_char_range in Hd; lia. }
+  pose proof (token_char_count_octal_escape cs Hl Hoct) as Hcnt.
+  destruct (char_token_value_platform_ext p cpp (92 :: cs) _ Hc Hb Hp Hcnt) as [E1 E2].
+  repeat split; assumption.
+Qed.
